@@ -162,7 +162,7 @@ func vfRunReply(f []string) string {
 	rc := newRadiusConn("127.0.0.1", port, secret, vfExchangeTimeout, netbind.Binding{})
 	defer rc.close()
 	buf := make([]byte, 8192)
-	out := []string{}
+	var out []string
 	p := 3
 	type res struct {
 		pkt *radius.Packet
@@ -182,8 +182,28 @@ func vfRunReply(f []string) string {
 		}()
 		return ch
 	}
+	// A round whose identifier token is prefixed with "h" is HELD: its exchange is started and its request read
+	// by the server, but its datagrams are sent only together with (and before) those of the next round, whose
+	// exchange is started while the held one is still waiting — two overlapping exchanges on one radiusConn.
+	type held struct {
+		idx int
+		ch  chan res
+		req []byte
+		dgs []string
+	}
+	var hold *held
+	gotOf := func(rr res) string {
+		if rr.err == nil && rr.pkt != nil {
+			return vfPacketFields(rr.pkt)
+		} else if rr.err != nil && !strings.Contains(rr.err.Error(), "timeout waiting") {
+			return "error"
+		}
+		return "timeout"
+	}
+	out = make([]string, rounds)
 	for r := 0; r < rounds; r++ {
-		id, _ := strconv.Atoi(f[p])
+		isHeld := strings.HasPrefix(f[p], "h") && r+1 < rounds && hold == nil
+		id, _ := strconv.Atoi(strings.TrimPrefix(f[p], "h"))
 		code, _ := strconv.Atoi(f[p+1])
 		authb := vfUnhex(f[p+2])
 		attrb := vfUnhex(f[p+3])
@@ -201,21 +221,29 @@ func vfRunReply(f []string) string {
 		n, addr, err := srv.ReadFromUDP(buf)
 		if err != nil {
 			rr := <-ch
-			out = append(out, fmt.Sprintf("noreq:%v", rr.err != nil))
+			out[r] = fmt.Sprintf("noreq:%v", rr.err != nil)
 			continue
 		}
 		reqRaw := append([]byte(nil), buf[:n]...)
+		if isHeld {
+			hold = &held{idx: r, ch: ch, req: reqRaw, dgs: dgs}
+			continue
+		}
+		if hold != nil {
+			for _, d := range hold.dgs {
+				srv.WriteToUDP(vfUnhex(d), addr)
+			}
+		}
 		for _, d := range dgs {
 			srv.WriteToUDP(vfUnhex(d), addr)
 		}
 		rr := <-ch
-		got := "timeout"
-		if rr.err == nil && rr.pkt != nil {
-			got = vfPacketFields(rr.pkt)
-		} else if rr.err != nil && !strings.Contains(rr.err.Error(), "timeout waiting") {
-			got = "error"
+		out[r] = "req=" + vfHex(reqRaw) + " got=" + gotOf(rr)
+		if hold != nil {
+			hr := <-hold.ch
+			out[hold.idx] = "req=" + vfHex(hold.req) + " got=" + gotOf(hr)
+			hold = nil
 		}
-		out = append(out, "req="+vfHex(reqRaw)+" got="+got)
 		// drain: a sync exchange on the reserved identifier 255 answered genuinely; when it returns the
 		// read loop has consumed every datagram of this round.
 		sp := &radius.Packet{Code: radius.CodeAccountingRequest}
